@@ -12,7 +12,7 @@
 From Coq Require Import Permutation Sorted.
 From CC Require Import Base.Prelude Base.Alloc Base.Ledger Generated.Status Generated.Constants Generated.Guards.
 From CC Require Import Rbuf.RbufModel SPool.SPoolModel DPool.DPoolModel Array.ArrayModel Deque.DequeModel PQueue.PQueueModel Hash.HashModel Tst.TstModel Tree.TreeModel List_.ListModel SList.SListModel.
-From CC Require Import Array.ArrayMore Array.ArrayZip Deque.DequeProofs5 Hash.HashProofsD List_.ListProofs7 SList.SListProofs6 Tree.TreeTheorems Tst.TstProofs3 Tst.TstProofs4.
+From CC Require Import Array.ArrayMore Array.ArrayZip Deque.DequeProofs5 Hash.HashProofsD List_.ListProofs11 List_.ListProofs7 SList.SListProofs6 SList.SListProofs8 Tree.TreeTheorems Tst.TstProofs3 Tst.TstProofs4.
 Local Open Scope N_scope.
 
 (** CC_Array / CC_Stack (the stack iterator is the array iterator) *)
@@ -670,6 +670,65 @@ Theorem C07_list_zip_fresh_complete :
 Proof. exact CC.List_.ListProofs7.zip_fresh_complete. Qed.
 Print Assumptions C07_list_zip_fresh_complete.
 
+(** zip replace after a yield: the yielded pair is overwritten in place, both lists keep their nodes, order and size *)
+Theorem C07_list_zip_replace :
+  forall (s1 s2 : clist) (z : ziter) (done1 : list (N * N)) (x1 d1 : N) (rest1 done2 : list (N * N))
+           (x2 d2 : N) (rest2 : list (N * N)) (e1 e2 : N),
+         ListHeap.lrep s1 (done1 ++ (x1, d1) :: rest1) ->
+         ListHeap.lrep s2 (done2 ++ (x2, d2) :: rest2) ->
+         z1_last z = x1 ->
+         z2_last z = x2 ->
+         exists s1' s2' : clist,
+           zip_replace s1 s2 z e1 e2 = Ok (CC_OK, d1, d2, s1', s2') /\
+           ListHeap.lrep s1' (done1 ++ (x1, e1) :: rest1) /\
+           ListHeap.lrep s2' (done2 ++ (x2, e2) :: rest2) /\
+           ListProofs1.same_hdr s1 s1' /\ ListProofs1.same_hdr s2 s2'.
+Proof. exact CC.List_.ListProofs11.zip_replace_spec. Qed.
+Print Assumptions C07_list_zip_replace.
+
+(** no yielded pair (before the first next, after a remove): refused, nothing changes *)
+Theorem C07_list_zip_replace_none :
+  forall (s1 s2 : clist) (z : ziter) (e1 e2 : N),
+         z1_last z = 0 \/ z2_last z = 0 ->
+         zip_replace s1 s2 z e1 e2 = Ok (CC_ERR_VALUE_NOT_FOUND, 0, 0, s1, s2).
+Proof. exact CC.List_.ListProofs11.zip_replace_none. Qed.
+Print Assumptions C07_list_zip_replace_none.
+
+Theorem C07_list_zip_remove_none :
+  forall (s1 s2 : clist) (z : ziter) (a : alloc_st),
+         z1_last z = 0 \/ z2_last z = 0 ->
+         zip_remove s1 s2 z a = Ok (CC_ERR_VALUE_NOT_FOUND, 0, 0, s1, s2, z, a).
+Proof. exact CC.List_.ListProofs11.zip_remove_none. Qed.
+Print Assumptions C07_list_zip_remove_none.
+
+(** zip remove after a yield: exactly the two yielded nodes leave their lists and the ledger; the traversal position is unchanged and there is no current pair any more *)
+Theorem C07_list_zip_remove :
+  forall (s1 s2 : clist) (z : ziter) (done1 : list (N * N)) (x1 d1 : N) (rest1 done2 : list (N * N))
+           (x2 d2 : N) (rest2 : list (N * N)) (a : alloc_st) (F : list block),
+         ListHeap.lrep s1 (done1 ++ (x1, d1) :: rest1) ->
+         ListHeap.lrep s2 (done2 ++ (x2, d2) :: rest2) ->
+         ListHeap.lok a ->
+         Permutation (live a)
+           (ListHeap.blocks s1 (done1 ++ (x1, d1) :: rest1) ++
+            ListHeap.blocks s2 (done2 ++ (x2, d2) :: rest2) ++ F) ->
+         z1_last z = x1 ->
+         z2_last z = x2 ->
+         exists (s1' s2' : clist) (z' : ziter) (a' : alloc_st),
+           zip_remove s1 s2 z a = Ok (CC_OK, d1, d2, s1', s2', z', a') /\
+           ListHeap.lrep s1' (done1 ++ rest1) /\
+           ListHeap.lrep s2' (done2 ++ rest2) /\
+           ListHeap.lok a' /\
+           Permutation (live a')
+             (ListHeap.blocks s1' (done1 ++ rest1) ++ ListHeap.blocks s2' (done2 ++ rest2) ++ F) /\
+           ListProofs1.same_hdr s1 s1' /\
+           ListProofs1.same_hdr s2 s2' /\
+           plan a' = plan a /\
+           z1_last z' = 0 /\
+           z2_last z' = 0 /\
+           z1_next z' = z1_next z /\ z2_next z' = z2_next z /\ z_index z' = wsub (z_index z) 1.
+Proof. exact CC.List_.ListProofs11.zip_remove_spec. Qed.
+Print Assumptions C07_list_zip_remove.
+
 (** CC_SList forward iterator *)
 Theorem C07_slist_next_yield :
   forall (s : slist) (it : siter) (done : list (N * N)) (x d : N) (t : list (N * N)),
@@ -743,6 +802,66 @@ Theorem C07_slist_add :
          end.
 Proof. exact CC.SList.SListProofs6.siter_add_spec. Qed.
 Print Assumptions C07_slist_add.
+
+(** CC_SList zip replace after a yield: the yielded pair is overwritten in place, both lists keep their nodes, order and size *)
+Theorem C07_slist_zip_replace :
+  forall (s1 s2 : slist) (z : sziter) (done1 : list (N * N)) (x1 d1 : N) (rest1 done2 : list (N * N))
+           (x2 d2 : N) (rest2 : list (N * N)) (e1 e2 : N),
+         SListHeap.srep s1 (done1 ++ (x1, d1) :: rest1) ->
+         SListHeap.srep s2 (done2 ++ (x2, d2) :: rest2) ->
+         sz1_current z = x1 ->
+         sz2_current z = x2 ->
+         exists s1' s2' : slist,
+           szip_replace s1 s2 z e1 e2 = Ok (CC_OK, d1, d2, s1', s2') /\
+           SListHeap.srep s1' (done1 ++ (x1, e1) :: rest1) /\
+           SListHeap.srep s2' (done2 ++ (x2, e2) :: rest2) /\
+           SListProofs1.ssame_hdr s1 s1' /\ SListProofs1.ssame_hdr s2 s2'.
+Proof. exact CC.SList.SListProofs8.szip_replace_spec. Qed.
+Print Assumptions C07_slist_zip_replace.
+
+Theorem C07_slist_zip_replace_none :
+  forall (s1 s2 : slist) (z : sziter) (e1 e2 : N),
+         sz1_current z = 0 \/ sz2_current z = 0 ->
+         szip_replace s1 s2 z e1 e2 = Ok (CC_ERR_VALUE_NOT_FOUND, 0, 0, s1, s2).
+Proof. exact CC.SList.SListProofs8.szip_replace_none. Qed.
+Print Assumptions C07_slist_zip_replace_none.
+
+Theorem C07_slist_zip_remove_none :
+  forall (s1 s2 : slist) (z : sziter) (a : alloc_st),
+         sz1_current z = 0 \/ sz2_current z = 0 ->
+         szip_remove s1 s2 z a = Ok (CC_ERR_VALUE_NOT_FOUND, 0, 0, s1, s2, z, a).
+Proof. exact CC.SList.SListProofs8.szip_remove_none. Qed.
+Print Assumptions C07_slist_zip_remove_none.
+
+(** CC_SList zip remove after a yield: exactly the two yielded nodes leave their lists and the ledger *)
+Theorem C07_slist_zip_remove :
+  forall (s1 s2 : slist) (z : sziter) (done1 : list (N * N)) (x1 d1 : N) (rest1 done2 : list (N * N))
+           (x2 d2 : N) (rest2 : list (N * N)) (a : alloc_st) (F : list block),
+         SListHeap.srep s1 (done1 ++ (x1, d1) :: rest1) ->
+         SListHeap.srep s2 (done2 ++ (x2, d2) :: rest2) ->
+         ListHeap.lok a ->
+         Permutation (live a)
+           (SListHeap.sblocks s1 (done1 ++ (x1, d1) :: rest1) ++
+            SListHeap.sblocks s2 (done2 ++ (x2, d2) :: rest2) ++ F) ->
+         sz1_current z = x1 ->
+         sz2_current z = x2 ->
+         sz1_prev z = ListHeap.last_id done1 0 ->
+         sz2_prev z = ListHeap.last_id done2 0 ->
+         exists (s1' s2' : slist) (z' : sziter) (a' : alloc_st),
+           szip_remove s1 s2 z a = Ok (CC_OK, d1, d2, s1', s2', z', a') /\
+           SListHeap.srep s1' (done1 ++ rest1) /\
+           SListHeap.srep s2' (done2 ++ rest2) /\
+           ListHeap.lok a' /\
+           Permutation (live a')
+             (SListHeap.sblocks s1' (done1 ++ rest1) ++ SListHeap.sblocks s2' (done2 ++ rest2) ++ F) /\
+           SListProofs1.ssame_hdr s1 s1' /\
+           SListProofs1.ssame_hdr s2 s2' /\
+           plan a' = plan a /\
+           sz1_current z' = 0 /\
+           sz2_current z' = 0 /\
+           sz1_next z' = sz1_next z /\ sz2_next z' = sz2_next z /\ sz_index z' = wsub (sz_index z) 1.
+Proof. exact CC.SList.SListProofs8.szip_remove_spec. Qed.
+Print Assumptions C07_slist_zip_remove.
 
 Theorem C07_slist_zip_fresh_complete :
   forall (s1 : slist) (l1 : list (N * N)) (s2 : slist) (l2 : list (N * N)),
